@@ -321,7 +321,7 @@ pub fn run(ctx: &mut Ctx) {
     }
     exhaustive(ctx, ctx.thorough);
     let n = if ctx.thorough { 30_000 } else { 2_500 } * ctx.budget;
-    let opts = GenOpts { max_targets: if ctx.thorough { 60 } else { 12 }, allow_dups: true, allow_odd: true };
+    let opts = GenOpts { max_targets: if ctx.thorough { 60 } else { 12 }, allow_dups: true, allow_odd: true, allow_slash: true };
     for _ in 0..n {
         let mut r = ctx.rng.fork();
         let cfg = gen::config(&mut r, &opts);
